@@ -106,10 +106,24 @@ type c19case struct {
 	FallLat  []int    `json:"fallback_latencies"`
 	CancelAt int      `json:"cancel_at_half_quanta"` // 0 = never; else cancel at (k - 0.5) quanta... see below
 	All      bool     `json:"all_forms"`
+	// history: calls made on the SAME client object before the judged one (the multi client lives as long as the process
+	// and keeps state between calls, e.g. its best-node selector); each runs to completion under its own 50-quanta deadline
+	Prefix []c19pre `json:"prefix,omitempty"`
+}
+
+type c19pre struct {
+	Kind string   `json:"kind"`
+	Prim []string `json:"primaries"`
+	Fall []string `json:"fallbacks"`
+	Rep  int      `json:"repeat"`
 }
 
 func (c c19case) String() string {
-	return fmt.Sprintf("%s P=%v@%v F=%v@%v cancel=%d", c.Kind, c.Prim, c.PrimLat, c.Fall, c.FallLat, c.CancelAt)
+	s := fmt.Sprintf("%s P=%v@%v F=%v@%v cancel=%d", c.Kind, c.Prim, c.PrimLat, c.Fall, c.FallLat, c.CancelAt)
+	if len(c.Prefix) > 0 {
+		s += fmt.Sprintf(" after=%v", c.Prefix)
+	}
+	return s
 }
 
 type c19obs struct {
@@ -151,6 +165,35 @@ func c19run(t *testing.T, cs c19case) (obs c19obs) {
 		cl, err := Instrument(pc, fc)
 		if err != nil {
 			t.Fatalf("instrument: %v", err)
+		}
+		for _, pre := range cs.Prefix {
+			for k := 0; k < pre.Rep; k++ {
+				for i, n := range pn {
+					n.out, n.lat, n.t0 = c19find(cs.All, pre.Prim[i]), time.Duration(i+1)*c19q, time.Now()
+				}
+				for i, n := range fn {
+					n.out, n.lat, n.t0 = c19find(cs.All, pre.Fall[i]), time.Duration(i+1)*c19q, time.Now()
+				}
+				pctx, pcancel := context.WithTimeout(context.Background(), 50*c19q)
+				if pre.Kind == "submit" {
+					_ = cl.SubmitAttestations(pctx, &eth2api.SubmitAttestationsOpts{})
+				} else {
+					_, _ = cl.AttestationData(pctx, &eth2api.AttestationDataOpts{})
+				}
+				pcancel()
+				synctest.Wait()
+				_ = cl.Address() // the only reader of the selector state
+			}
+		}
+		if len(cs.Prefix) > 0 {
+			time.Sleep(3 * c19q)
+			t0 = time.Now()
+			for i, n := range pn {
+				n.out, n.lat, n.t0, n.called, n.tCall = c19find(cs.All, cs.Prim[i]), time.Duration(cs.PrimLat[i])*c19q, t0, false, 0
+			}
+			for i, n := range fn {
+				n.out, n.lat, n.t0, n.called, n.tCall = c19find(cs.All, cs.Fall[i]), time.Duration(cs.FallLat[i])*c19q, t0, false, 0
+			}
 		}
 		ctx, cancel := context.WithCancel(context.Background())
 		cancelAt := c19horizon
@@ -463,6 +506,88 @@ func TestVerifC19(t *testing.T) {
 						break
 					}
 				}
+			}
+		}
+	}
+	// History dimension: the judged call is made on a client object that has already served other calls. Every prefix of one
+	// earlier call (thorough: also two) with every outcome vector over {ok, generic, syncing, hang}, once and three times in a
+	// row (so that the selector has a clear favourite), followed by every judged script over the six outcome classes, every
+	// latency order, no cancel / cancel before the first answer. The oracle is the same statement evaluated on the judged call.
+	preOuts := []string{"ok", "generic", "syncing", "hang"}
+	outs := c19outcomes(false)
+	type topo struct{ p, f int }
+	topos := []topo{{2, 1}, {1, 1}, {2, 0}}
+	if th {
+		topos = append(topos, topo{3, 1}, topo{1, 2})
+	}
+	for _, tp := range topos {
+		nn := tp.p + tp.f
+		pidx := make([]int, nn)
+		for {
+			if r.Mine() {
+				var pp, pf []string
+				for i := 0; i < tp.p; i++ {
+					pp = append(pp, preOuts[pidx[i]])
+				}
+				for i := 0; i < tp.f; i++ {
+					pf = append(pf, preOuts[pidx[tp.p+i]])
+				}
+				for _, rep := range []int{1, 3} {
+					for _, pkind := range []string{"provide", "submit"} {
+						if pkind == "submit" && rep == 3 && !th {
+							continue
+						}
+						idx := make([]int, nn)
+						for {
+							if r.Expired() {
+								return
+							}
+							var pn, fn []string
+							for i := 0; i < tp.p; i++ {
+								pn = append(pn, outs[idx[i]].Name)
+							}
+							for i := 0; i < tp.f; i++ {
+								fn = append(fn, outs[idx[tp.p+i]].Name)
+							}
+							for _, pl := range c19perms(tp.p) {
+								for _, fl := range c19perms(tp.f) {
+									for _, kind := range []string{"provide", "submit"} {
+										for _, cancel := range []int{0, 1} {
+											cs := c19case{Kind: kind, Prim: pn, PrimLat: pl, Fall: fn, FallLat: fl, CancelAt: cancel,
+												Prefix: []c19pre{{Kind: pkind, Prim: pp, Fall: pf, Rep: rep}}}
+											judge(cs)
+											r.Count("judged_calls_with_history", 1)
+										}
+									}
+								}
+							}
+							j := 0
+							for j < nn {
+								idx[j]++
+								if idx[j] < len(outs) {
+									break
+								}
+								idx[j] = 0
+								j++
+							}
+							if j == nn {
+								break
+							}
+						}
+					}
+				}
+			}
+			j := 0
+			for j < nn {
+				pidx[j]++
+				if pidx[j] < len(preOuts) {
+					break
+				}
+				pidx[j] = 0
+				j++
+			}
+			if j == nn {
+				break
 			}
 		}
 	}
